@@ -294,6 +294,38 @@ def scoping_stylesheet(rng):
     return {"templates": templates, "gvars": gvars, "keys": [], "strip": []}
 
 
+def sorting_stylesheet(rng):
+    """The sorting family: for-each / apply-templates over tie-prone selections with 1-3 sort keys (name(), @x, child count,
+    string length, text; text / number; ascending / descending mixed), whose body prints position(), last() and the node's
+    name and @id - several keys only matter when nodes tie on the earlier ones, which these keys make the normal case."""
+    P_ = lambda *steps, **kw: path(list(steps), **kw)
+    def key():
+        sel, dt = rng.choice([(fn("name"), "text"), (P_(at(t_name("x"))), "text"), (P_(at(t_name("x"))), "number"), (fn("count", P_(ch(T_NODE))), "number"),
+                              (fn("string-length", P_(step("self", T_NODE))), "number"), (fn("count", P_(at(T_ANY))), "number"),
+                              (P_(step("self", T_NODE)), "text"), (fn("local-name", P_(step("parent", T_NODE, abbr=False))), "text")])
+        return {"sel": sel, "dtype": dt, "desc": rng.random() < 0.5}
+    def sorts():
+        return [key() for _ in range(rng.choice([1, 2, 2, 3]))]
+    show = [{"i": "text", "v": cps("[")}, {"i": "value-of", "sel": fn("position")}, {"i": "text", "v": cps("/")}, {"i": "value-of", "sel": fn("last")},
+            {"i": "text", "v": cps(":")}, {"i": "value-of", "sel": fn("name")}, {"i": "text", "v": cps("#")}, {"i": "value-of", "sel": P_(at(t_name("id")))},
+            {"i": "text", "v": cps("]")}]
+    sel = lambda: rng.choice([P_(step("descendant", T_ANY)), P_(ch(T_ANY), ch(T_ANY)), P_(step("descendant", T_NODE)), P_(ch(T_ANY), ch(T_NODE)),
+                              bin_("|", P_(step("descendant", T_ANY)), P_(step("descendant", T_ANY), at(T_ANY)))])
+    body = []
+    for _ in range(rng.choice([1, 2])):
+        if rng.random() < 0.5:
+            body.append({"i": "lre", "name": cps("f"), "attrs": [], "body": [{"i": "for-each", "sel": sel(), "sorts": sorts(), "body": show}]})
+        else:
+            body.append({"i": "lre", "name": cps("a"), "attrs": [], "body": [{"i": "apply-templates", "hasSel": True, "sel": sel(), "mode": "s", "sorts": sorts(), "params": []}]})
+    z = {"k": "fin", "neg": False, "m": 0}
+    templates = [
+        {"rid": 1, "hasMatch": True, "match": P_(abs_=True), "name": "", "mode": "", "hasPrio": False, "prio": z, "params": [],
+         "body": [{"i": "lre", "name": cps("out"), "attrs": [], "body": body}]},
+        {"rid": 2, "hasMatch": True, "match": bin_("|", P_(ch(T_NODE)), P_(at(T_ANY))), "name": "", "mode": "s", "hasPrio": False, "prio": z, "params": [], "body": show},
+    ]
+    return {"templates": templates, "gvars": [], "keys": [], "strip": []}
+
+
 # ------------------------------------------------------------------------------------------ rendering
 def s(cp):
     return "".join(chr(c) for c in cp)
